@@ -318,7 +318,7 @@ theorem st0_inv : BlobInv toyHash st0 ∧ NameInv toyHash st0 := by
 /-- attempt 1: the CDN answers layer A's chunk with an error page (status is never checked),
     layer B's HEAD is 404 -/
 def scF6 : Scripts :=
-  ⟨[], [], [(dA, ⟨[], [], [[.body (.junk [9, 9]) none .eof]]⟩), (dB, ⟨[.notfound], [], []⟩)]⟩
+  ⟨[], [], [(dA, ⟨[], [], [[.body (.junk [9, 9]) none .eof]]⟩), (dB, ⟨[.notfound], [], []⟩)], none⟩
 
 /-- **Witness of F6** (`pull_fail_preserves` is false): from the empty store, a failed attempt leaves
     layer A under its final name unverified; the following attempt against a completely honest
@@ -339,8 +339,8 @@ example : (pull cfgW toyHash 0 regAB Scripts.honest st0).1 = .ok () ∧
 /-- non-vacuity of the failure theorems: `scF6` is a failing attempt that renames a blob, and a
     404 on the manifest is a failing attempt that renames nothing -/
 example : (pull cfgW toyHash 0 regAB scF6 st0).1 ≠ .ok () ∧
-    (pull cfgW toyHash 0 regAB ⟨[.notfound], [], []⟩ st0).1 = .err .manifest ∧
-    (pull cfgW toyHash 0 regAB ⟨[.notfound], [], []⟩ st0).2.2.renamed = [] := by decide
+    (pull cfgW toyHash 0 regAB ⟨[.notfound], [], [], none⟩ st0).1 = .err .manifest ∧
+    (pull cfgW toyHash 0 regAB ⟨[.notfound], [], [], none⟩ st0).2.2.renamed = [] := by decide
 
 /-! ## The repaired variants on the same witnesses -/
 
@@ -359,7 +359,7 @@ theorem F6_repaired :
     fixes): the corrupt download is caught; the empty digest is an error, not a panic -/
 theorem dup_and_empty_repaired :
     let reg : Registry := ⟨⟨[⟨.ok dA, 2⟩, ⟨.ok dA, 2⟩], ⟨.empty, 0⟩⟩, [(dA, cA)], [0]⟩
-    let sc : Scripts := ⟨[], [], [(dA, ⟨[], [], [[.body (.flip 0) none .eof]]⟩)]⟩
+    let sc : Scripts := ⟨[], [], [(dA, ⟨[], [], [[.body (.flip 0) none .eof]]⟩)], none⟩
     let regE : Registry := ⟨⟨[⟨.empty, 0⟩], ⟨.empty, 0⟩⟩, [], [0]⟩
     (pull cfgD toyHash 0 reg sc st0).1 = .err .digestMismatch ∧
     (pull cfgD toyHash 0 reg sc st0).2.1.blobs dA = none ∧
@@ -407,7 +407,7 @@ theorem retry_can_succeed (cfg : Cfg) (hash : Bytes → Digest) (name : Name) (r
     (hreg : HonestReg hash reg) (hinv : BlobInv hash st) (hclean : CleanFor st reg) :
     (pull cfg hash name reg Scripts.honest st).1 = .ok () := by
   obtain ⟨s', hdl, hb'⟩ := dlLoop_honest cfg hash reg hret hmin hmax reg.manifest.all
-    ⟨st, { tok := [], nm := 1 }, [], []⟩ hreg hinv hclean
+    ⟨st, { tok := [], nm := 1 }, [], [], false⟩ hreg hinv hclean rfl
   have hpresent : ∀ l ∈ reg.manifest.all, ∀ d, l.digest = .ok d → ∃ c, s'.st.blobs d = some c := by
     intro l hl d hd
     obtain ⟨d', c, hd', hc⟩ := dlLoop_ok_present _ hdl l hl
@@ -417,9 +417,10 @@ theorem retry_can_succeed (cfg : Cfg) (hash : Bytes → Digest) (name : Name) (r
     split
     · rfl
     · exact verifyLoop_honest hash s'.skip reg.manifest.all s'.st hb' hpresent
-  have hdl' : dlLoop cfg hash reg ⟨[], [], []⟩ reg.manifest.all ⟨st, { tok := [], nm := 1 }, [], []⟩ = (.ok (), s') := hdl
-  show (pull cfg hash name reg ⟨[], [], []⟩ st).1 = .ok ()
+  have hdl' : dlLoop cfg hash reg ⟨[], [], [], none⟩ reg.manifest.all ⟨st, { tok := [], nm := 1 }, [], [], false⟩ = (.ok (), s') := hdl
+  show (pull cfg hash name reg ⟨[], [], [], none⟩ st).1 = .ok ()
   simp only [pull, mrr_pass_dflt, hdl', hv]
+  simp
 
 /-- non-vacuity of `retry_can_succeed` -/
 example : HonestReg toyHash regAB ∧ BlobInv toyHash st0 ∧ CleanFor st0 regAB := by
@@ -436,7 +437,7 @@ example : HonestReg toyHash regAB ∧ BlobInv toyHash st0 ∧ CleanFor st0 regAB
     2-byte blob) is persisted as the part plan; after that, a pull against the honest registry
     fails with `max retries exceeded` and leaves exactly the same resume state — so does the next. -/
 def regA : Registry := ⟨⟨[⟨.ok dA, 2⟩], ⟨.empty, 0⟩⟩, [(dA, cA)], [0]⟩
-def scLie : Scripts := ⟨[], [], [(dA, ⟨[.pass 5], [], []⟩)]⟩
+def scLie : Scripts := ⟨[], [], [(dA, ⟨[.pass 5], [], []⟩)], none⟩
 
 theorem stuck_plan_never_recovers :
     let r1 := pull cfgW toyHash 0 regA scLie st0
@@ -457,7 +458,7 @@ theorem stuck_plan_never_recovers :
     hit, so a freshly downloaded corrupt blob is never verified and the pull succeeds. -/
 theorem dup_digest_skips_verification :
     let reg : Registry := ⟨⟨[⟨.ok dA, 2⟩, ⟨.ok dA, 2⟩], ⟨.empty, 0⟩⟩, [(dA, cA)], [0]⟩
-    let sc : Scripts := ⟨[], [], [(dA, ⟨[], [], [[.body (.flip 1) none .eof]]⟩)]⟩
+    let sc : Scripts := ⟨[], [], [(dA, ⟨[], [], [[.body (.flip 1) none .eof]]⟩)], none⟩
     let r := pull cfgW toyHash 0 reg sc st0
     r.1 = .ok () ∧ r.2.1.blobs dA = some [1, 245] ∧ [1, 245] ≠ cA := by decide
 
@@ -484,7 +485,7 @@ theorem size_lie_accepted :
                                               honest retry (new direct URL) succeeds.
     None of them is a panic (for every script at all: `pull_no_panic_fixed`). -/
 theorem malformed_redirect_outcomes :
-    let run := fun (d : List (Reply DirRep)) => pull cfgF toyHash 0 regA ⟨[], [], [(dA, ⟨[], d, []⟩)]⟩ st0
+    let run := fun (d : List (Reply DirRep)) => pull cfgF toyHash 0 regA ⟨[], [], [(dA, ⟨[], d, []⟩)], none⟩ st0
     (run [.pass .noloc]).1 = .err .noLocation ∧
     (run [.pass .badstatus]).1 = .err .directStatus ∧
     (run [.pass .badloc]).1 = .ok () ∧ (run [.pass .badloc]).2.2.net.nd = 2 ∧
